@@ -211,3 +211,46 @@ func (e *Explorer) Deterministic(x *Execution, same func(a, b *Execution) bool) 
 	}
 	return same == nil || same(x, y)
 }
+
+// SchedProbe runs body — an operation documented as sequential — under the controlled
+// scheduler with the given preemption bound.  If the operation spawns no goroutine this is a
+// single execution; if a change to the code under test has made it concurrent, every
+// interleaving inside the bound is explored: each must terminate, misuse no channel /
+// WaitGroup / mutex, show no data race on instrumented shared variables, and return what the
+// default execution returns (same(a, b)).  Violations are reported as
+// <sigPrefix>/concurrent/<clause> with payload.
+func SchedProbe(c *Ctx, sigPrefix, what string, bound int, payload any, body func() any, same func(a, b any) bool) {
+	var first any
+	have := false
+	ex := &Explorer{Ctx: c, NoCount: true, Opts: vrt.Options{Sched: true, MaxSteps: 2000000}, Bound: map[string]int{"sched": bound}, Body: body}
+	ex.Check = func(x *Execution) {
+		c.Eval()
+		e := x.Exec
+		bad := func(clause, desc string) {
+			c.Violation(sigPrefix+"/concurrent/"+clause, fmt.Sprintf("%s under schedule [%s]: %s", what, x.Choices(), desc), payload)
+			x.NoExpand = true
+			ex.Stop()
+		}
+		switch {
+		case e.Horizon:
+			bad("horizon", "did not finish within the step horizon")
+		case e.Deadlock:
+			bad("deadlock", "never returns: "+strings.Join(e.Blocked, ", "))
+		case len(e.Errors) > 0:
+			bad("sync-misuse", strings.Join(e.Errors, "; "))
+		case x.Panic != nil:
+			bad("panic", fmt.Sprint(x.Panic))
+		case len(e.Races) > 0:
+			bad("data-race", e.Races[0])
+		case !have:
+			first, have = x.Result, true
+			if e.Threads > 1 {
+				c.Count("sched_probe_concurrent_operations", 1)
+			}
+		case !same(first, x.Result):
+			bad("result-depends-on-schedule", fmt.Sprintf("%v vs %v", first, x.Result))
+		}
+	}
+	ex.Explore()
+	c.Count("sched_probe_executions", ex.Executions)
+}
